@@ -264,7 +264,7 @@ Call(m, a) ==
                                              ELSE <<"ok", "tuple">> \o args]
 
 ----------------------------------------------------------------------------
-IsRx(a) == a.act \in {"RxConnect", "RxConnectError", "RxDisconnect", "RxEvent", "RxAck", "RxFrame",
+IsRx(a) == a.act \in {"RxConnect", "RxConnectError", "RxDisconnect", "RxEvent", "RxAck", "RxAckDup", "RxFrame",
                       "TransportError", "ServerClose"}
 
 Step(m, a) ==
@@ -274,6 +274,7 @@ Step(m, a) ==
       [] a.act = "RxDisconnect"   -> RxDisconnect(m, a.ns)
       [] a.act = "RxEvent"        -> HandleEvent(m, a.ns, a.id, a.ev, a.args)
       [] a.act = "RxAck"          -> HandleAck(m, a.ns, a.id, a.args)
+      [] a.act = "RxAckDup"       -> HandleAck(HandleAck(m, a.ns, a.id, a.args), a.ns, a.id, a.args)
       [] a.act = "RxFrame"        ->
             IF a.kind = "hdr" THEN RxBinHeader(m, a.ty, a.ns, a.id, a.ev, a.n)
             ELSE IF Has(m.s.binbuf, "p") THEN RxAttachment(m, a.b) ELSE Raise(m, "ValueError")
@@ -296,7 +297,7 @@ Enabled(s, a) ==
       [] a.act \in {"RxConnect", "RxConnectError"} ->
             s.eio = "connected" /\ a.ns \in s.srvReq /\ a.ns \notin s.srvAns
             /\ s.nextSid <= MaxSid /\ ~Has(s.binbuf, "p")
-      [] a.act \in {"RxDisconnect", "RxEvent", "RxAck"} ->
+      [] a.act \in {"RxDisconnect", "RxEvent", "RxAck", "RxAckDup"} ->
             s.eio = "connected" /\ a.ns \in s.srvAcc /\ ~Has(s.binbuf, "p")
       [] a.act = "RxFrame" ->
             s.eio = "connected" /\ (a.kind = "hdr" => a.ns \in s.srvAcc /\ ~Has(s.binbuf, "p"))
@@ -335,7 +336,7 @@ GhostNext(s, g, a) ==
                 [] a.act = "Call" /\ Len(o.sent) > 0 ->
                       [g1 EXCEPT !.issued = {x \in @ : ~\E i \in 1..Len(a.during) :
                                                 a.during[i].act = "RxAck" /\ a.during[i].ns = x.ns /\ a.during[i].id = x.id}]
-                [] a.act = "RxAck" -> [g1 EXCEPT !.issued = {x \in @ : ~(x.ns = a.ns /\ x.id = a.id)}]
+                [] a.act \in {"RxAck", "RxAckDup"} -> [g1 EXCEPT !.issued = {x \in @ : ~(x.ns = a.ns /\ x.id = a.id)}]
                 [] a.act = "RxFrame" /\ a.kind = "att" /\ Has(s.binbuf, "p") ->
                       LET p == s.binbuf.p
                       IN  IF p.ty = "BINARY_ACK" /\ Len(p.atts) + 1 = p.owed
@@ -412,7 +413,7 @@ C09_IssuedIdUnique ==
             /\ ~\E x \in gh.issued : x.ns = a.ns /\ x.id = o.sent[1].id
 
 C09_AckOutcome ==
-    \A a \in Acts(st) : a.act = "RxAck" =>
+    \A a \in Acts(st) : a.act \in {"RxAck", "RxAckDup"} =>
         LET o    == Do(st, a)
             mine == {x \in gh.issued : x.ns = a.ns /\ x.id = a.id}
         IN  /\ o.res = <<"ok">> /\ o.hc = <<>> /\ o.sent = <<>>
